@@ -1030,6 +1030,11 @@ def mk_server_cfg(args: ArgsType) -> configparser.SectionProxy:
             value = args[opt]
             if test_cfg_val(opt, value):
                 cfg[opt] = arg2config(opt, opt_type, value)
+            elif value not in NULL_ARGS:
+                # The value in effect is what the library config / defaults
+                # already provide; don't leave a stale, different value from an
+                # earlier --write behind to override it on the next run.
+                USERCFG.remove_option(server, opt)
 
     return cfg
 
